@@ -6,7 +6,7 @@
 #include "engine.h"
 
 const char *CHK_RULE = "one case = one history on exactly-sized heap blocks (sweep: command capacity 6..40 x every byte value x argument length capacity-2..capacity+2 and "
-                       "3*capacity; tables of n = 1..160 commands on the minimal legal capacity max(6, ceil(n/4)); random: generated tables incl. unsupported integer widths, "
+                       "3*capacity; tables of n = 1..160 commands on the minimal legal capacity max(6, ceil(n/4)); event buffers of 0..7 bytes x names of 0..3 characters x READ/TEST events; random: generated tables incl. unsupported integer widths, "
                        "buffer sizes down to the minimum, unsolicited buffer sizes 0..40, odd buf_size, all handler return codes incl. out-of-range values and HOLD from event "
                        "handlers, events at random points, back-pressure, disable flags flipped between service calls, empty command names); non-trivial = a case that wrote the last legal byte of some buffer or variable; distinct by (capacity, "
                        "table size, input hash)";
@@ -70,16 +70,45 @@ static void sweep_mincap(long item)
         eng_run_history();
         edge_accounting();
 }
+/* unsolicited buffers of 0..7 bytes (separate) or a shared buffer whose event half has 6..9 bytes, names of 0..3 characters, READ and TEST events of commands
+ * with and without variables / handlers: every formatting step of the event machine starts at or next to the end of its buffer */
+#define N_SWEEP_D (8L * 4 * 2 * 4 * 2)
+static cat_return_state tiny_policy(struct hcall *h) { if ((h->kind == K_READ || h->kind == K_TEST) && h->max > 0 && chance(50)) { h->data[0] = 0; *h->psize = 0; } return chance(50) ? CAT_RETURN_STATE_DATA_OK : CAT_RETURN_STATE_OK; }
+static void sweep_tiny(long item)
+{
+        size_t usz = (size_t)(item % 8); item /= 8; size_t nl = (size_t)(item % 4); item /= 4; int type = (int)(item % 2); item /= 2; int shape = (int)(item % 4); item /= 4; bool shared = item & 1;
+        snprintf(mode, sizeof mode, "sweep: event buffer of %zu bytes (%s), name of %zu characters, %s event, command shape %d", shared ? usz + 6 : usz, shared ? "half of a shared buffer" : "separate", nl, type ? "TEST" : "READ", shape);
+        w_begin();
+        struct cat_command *a = w_group(2, false);
+        a[0].name = xstr(&"+EV"[3 - nl]);          /* "", "V", "EV", "+EV" */
+        if (shape & 1) { struct cat_variable *v = w_vars(&a[0], 1); v->type = (shape & 2) ? CAT_VAR_BUF_STRING : CAT_VAR_UINT_DEC; uint8_t *d = w_vdata(v, 1); *d = (shape & 2) ? 0 : 7; }
+        else { a[0].read = h_read; a[0].test = h_test; if (shape & 2) a[0].description = xstr(""); }
+        a[1].name = xstr("+X"); a[1].run = h_run;
+        if (shared) w_buffers(2 * (usz + 6) + (usz & 1), true, 0); else w_buffers(8, false, usz);
+        w_init((int)(usz & 1));
+        paint();
+        in_reset(); in_puts("AT+X\n");
+        sch_eager(&RS); sch_eager(&WS);
+        eng_monitors_install();
+        ENG_POLICY_OVERRIDE = tiny_policy; EP.p_handler_trigger = 0;
+        for (int k = 0; k < 3; k++) {
+                eng_trigger(0, type ? CAT_CMD_TYPE_TEST : CAT_CMD_TYPE_READ);
+                for (int i = 0; i < 200; i++) { cat_status s = svc(); canary_check("tiny event buffer"); if (s == CAT_STATUS_OK && INPOS >= INLEN) break; }
+        }
+        ENG_POLICY_OVERRIDE = NULL;
+        CNT("tiny_event_buffer_cases");
+        edge_accounting();
+}
 struct case_budget chk_budget(const char *tier)
 {
-        struct case_budget b = { N_SWEEP_A + N_SWEEP_C, strcmp(tier, "thorough") == 0 ? 6000000 : 90000 };
+        struct case_budget b = { N_SWEEP_A + N_SWEEP_C + N_SWEEP_D, strcmp(tier, "thorough") == 0 ? 6000000 : 90000 };
         return b;
 }
 void chk_run_case(uint64_t seed, long c, bool is_sweep)
 {
         (void)seed;
         eng_default_profile();
-        if (is_sweep) { if (c < N_SWEEP_A) sweep_bytes(c); else sweep_mincap(c - N_SWEEP_A); return; }
+        if (is_sweep) { if (c < N_SWEEP_A) sweep_bytes(c); else if (c < N_SWEEP_A + N_SWEEP_C) sweep_mincap(c - N_SWEEP_A); else sweep_tiny(c - N_SWEEP_A - N_SWEEP_C); return; }
         snprintf(mode, sizeof mode, "random history (unspecified cells included)");
         EP.unspecified_cells = true; EP.p_weird = 25; EP.p_long_line = 20; EP.p_event_step = rn(150); EP.p_cut = 20; EP.p_lookup = 40; EP.p_toggle = 30; EP.p_empty_name = 4;
         if (chance(20)) EP.max_cmds = 64;
